@@ -67,11 +67,11 @@ def new_item(I, cls: str, label, n=1, fill=1.0, nvals=1):
     raise ValueError(cls)
 
 
-def add_item(cls: str, blk, item):
+def add_item(cls: str, blk, item, channel=None):
     if cls in ("data3d", "force3d"):
         blk.add_track(item)
     elif cls == "emg":
-        blk.addSignal(item)
+        blk.addSignal(item, channel=channel)
     else:
         blk.events.append(item)
 
